@@ -23,6 +23,8 @@ META = {
     'trusted_base': ['python ast', 'sa.model enum tables', 'cryptodatahub *.json tables', 'sa/specs/aliases.json'],
     'exhaustive': True,
 }
+
+META['explanation'] += ' ' + 'R8: variant lists - every class but the last can decline with InvalidType.'
 HERE = os.path.dirname(os.path.dirname(os.path.abspath(__file__)))
 
 
